@@ -361,7 +361,8 @@ Inductive dec := DecOk (v : jvalue) | DecErr | DecFuel.
    Object members are returned in text order (duplicate keys are NOT merged: json.loads keeps
    the last one; an encoder output never has duplicates). *)
 Definition decode (s : str) : dec :=
-  match parse_value (S (length s)) (skip_ws s) with
+  (* fuel: a value and the element/member loop around it each take one unit per character read *)
+  match parse_value (S (2 * length s)) (skip_ws s) with
   | DOk v r => match skip_ws r with [] => DecOk v | _ => DecErr end
   | DErr => DecErr
   | DFuel => DecFuel
